@@ -91,7 +91,7 @@ theorem isLock_notSaves {p : Path} (h : isLock p = true) : notSaves p = true := 
 theorem constructChr_T (cfg : Cfg) (rs : Bool) (c : Chr) (fs : FS) :
     (eventsOf (constructChr fixed cfg rs c fs)).all (fun e => Tcon c e.path) = true := by
   by_cases hb : (rs && fs.has (.processed c)) = true
-  · simp [constructChr, hb, eventsOf]
+  · simp [constructChr, hb, eventsOf, eventsOf_append, eventsOf_loads_nil]
   · rw [constructChr_fixed cfg rs c fs (by simpa using hb)]
     have h1 := constructBody_T cfg c (tokOf (fs.good .info))
     simp only [constructBody, List.all_append, Bool.and_eq_true] at h1
@@ -135,7 +135,9 @@ theorem stages_notSaves {cfg : Cfg} (wf : WF cfg) (hm : cfg.fromSaves = true) (o
   · -- final files opened
     intro e he
     simp only [constructPre, eventsOf, eventsOf_evs] at he
-    obtain ⟨s, rfl | rfl⟩ := mem_aggInit he <;> rfl
+    obtain ⟨s, rfl | rfl⟩ := mem_aggInit he
+    · rcases finalOf_cases cfg s with e | e <;> simp only [Ev.path, e] <;> rfl
+    · rfl
   · -- model construction
     intro e he
     have hT : Tcon c e.path = true := by
@@ -160,7 +162,7 @@ theorem stages_notSaves {cfg : Cfg} (wf : WF cfg) (hm : cfg.fromSaves = true) (o
         obtain ⟨st, _, he⟩ := he
         exact mergeEv_T (step_mergeEv wf true fs' st e he)
       · exact mergeEv_T (sqMerge_mergeEv wf e he)
-      · rfl
+      · rcases finalOf_cases cfg s with e | e <;> simp only [Ev.path, e] <;> rfl
     revert hT; cases e.path <;> simp [Tmerge, notSaves]
 
 theorem saves_untouched {cfg : Cfg} (wf : WF cfg) (hm : cfg.fromSaves = true) (ord : List Path) (rs sk : Bool) (fs : FS) :
